@@ -506,7 +506,5 @@ class Element:
             return False
         elif not self._data == other._data:
             return False
-        elif not self._meta == other._meta:
-            return False
         else:
             return True
